@@ -529,7 +529,7 @@ def gen_int_case(rng):
         elif r < 0.55: cls, v = "in-range-large", rng.choice([65535, 65536, 10 ** 5, rng.randint(1000, 3 * 10 ** 6)])
         elif r < 0.8: cls, v = "product-beyond-long", rng.choice([3 * 10 ** 18, 2777 * 10 ** 15, 2 ** 62, 2 ** 63 - 1, 9 * 10 ** 18, rng.randint(2777 * 10 ** 15, 2 ** 63 - 1)])
         else: cls, v = "beyond-long", rng.choice([2 ** 63, 2 ** 64 + 2, 10 ** 19 + 3, int(gen_digits(rng, rng.randint(20, 40), True))])
-    word = rng.choice(["", "", "", "+", "00"]) + str(v)
+    word = (rng.choice(["", "", "", "+", "00"]) if v >= 0 else "") + str(v)
     coef = lambda: str(rng.randint(-99, 99))
     field = "degree" if "degree" in site else "prec" if "precision" in site else "index"
     if site == "3x-degree":
@@ -629,8 +629,9 @@ def int_range_cases(ctx, h, n_cases, cov, fixed=None):
         bad = int_predicate(c, real)
         if bad:
             reproduced[c["site"]] = reproduced.get(c["site"], 0) + 1
-            ctx.violation("int-overflow:" + c["site"], "a number outside the range of its C type is silently taken for another one (%s): %s; file %r"
-                          % (c["class"], bad, c["text"][:70]), rep)
+            if not ctx.violation("int-overflow:" + c["site"], "a number outside the range of its C type is silently taken for another one (%s): %s; file %r"
+                                 % (c["class"], bad, c["text"][:70]), rep) and reproduced[c["site"]] == 1:
+                ctx.log("known finding shown by (%s, written %d): %s; file %r" % (c["class"], c["written"], bad, c["text"][:70]))
         dm = differs_model(real, mod, real.get("struct", "")[-1:] == "f")
         if dm and not real["ok"] and not int_in_range(c):
             checked_rej += 1            # the repaired code: out-of-range numbers are refused (checked_digits of CIntParse.v)
